@@ -12,7 +12,8 @@ Driver for the enum area: decodes one case, prints the region and the model / sp
   (case <id> c14raw (type …) (blocks B…))
   (case <id> c01enum (flags …) (mode type|list|file|star) (types ("T" <kind> [sel])…) (blocks B…) [(locals B…)] [(idents "n"…)])      -- C01 leg
   B = (b S…)   S = (s (n "A" "B"…) (t "T" [q])|(c)|(e -|"T") (v 1 2…))     q: the type is not a plain identifier
-  every enum case may carry (locals B…): the const declarations inside function bodies
+  every enum case may carry (locals B…): the const declarations inside function bodies, and
+  (generated B…): the const declarations of generated files already in the package (a re-run)
 -/
 namespace ShootVerif.Drive
 open ShootVerif.Enum
@@ -49,8 +50,11 @@ def parseInput (p : Sexp) : Option Input := do
     let locals ← match p.field? "locals" with
       | some l => l.args.mapM (fun bl => bl.args.mapM parseSpec)
       | none => some []
+    let generated ← match p.field? "generated" with
+      | some l => l.args.mapM (fun bl => bl.args.mapM parseSpec)
+      | none => some []
     let _ := rest       -- an optional trailing atom (the kind's spelling) is accepted and ignored
-    some { T := nm t, kind := ⟨sg == "s", b⟩, blocks, locals }
+    some { T := nm t, kind := ⟨sg == "s", b⟩, blocks, locals, generated }
   | _ => none
 
 /-- kind name ↦ (kind, listed by ListTypes) -/
@@ -95,7 +99,7 @@ def staleVariants (p : Sexp) : List (String × (Name → Option Int)) :=
 /-! ### C04 -/
 
 def c04Model (i : Input) (win : List Int) (stale : List (String × (Name → Option Int))) : List (String × String) :=
-  match gen i.kind i.T i.blocks with
+  match gen i.kind i.T i.scanned with
   | .skipped => [("exit", "0"), ("file", "none")]
   | .file cs =>
     if !compiles false i.T i.decl cs then [("exit", "0"), ("compile", "error")]
@@ -170,7 +174,7 @@ structure C12Probes where
   encs : List Int
 
 def c12Model (i : Input) (q : C12Probes) : List (String × String) :=
-  match gen i.kind i.T i.blocks with
+  match gen i.kind i.T i.scanned with
   | .skipped => [("exit", "0"), ("file", "none")]
   | .file cs =>
     if !compiles false i.T i.decl cs then [("exit", "0"), ("compile", "error")]
@@ -245,7 +249,7 @@ def c12tCase (id : String) (payload : List Sexp) : List String :=
     let ints := probesOf p
     let pr := ints.map (fun (_, kV, v) => (kV, v))
     let reg := if !WF i || !probesOK pr then "Out" else "WF"
-    match gen i.kind i.T i.blocks with
+    match gen i.kind i.T i.scanned with
     | .file cs =>
       both id (ints.map (fun (n, kV, v) => (s!"isenum:{n}:{v}", toString (isEnum i.kind kV (valuesT cs) v))))
         (ints.map (fun (n, _, v) => (s!"isenum:{n}:{v}", toString (specIsEnum i.decl v)))) reg
@@ -261,7 +265,7 @@ def c12vCase (id : String) (payload : List Sexp) : List String :=
     let target := (intsOf p "target").headD 0
     let strs := ((p.field? "strs").map (·.args)).getD [] |>.filterMap (fun a => a.asAtom?.map nm)
     let reg := if !WF i then "Out" else "WF"
-    match gen i.kind i.T i.blocks with
+    match gen i.kind i.T i.scanned with
     | .file cs =>
       let vm := valueMap i.T cs
       both id
@@ -303,7 +307,7 @@ def c14Case (id : String) (payload : List Sexp) : List String :=
     let hi := ((intsOf p "hi").headD 0).toNat
     let negs := intsOf p "neg"
     let hd := [("exit", "0"), ("compile", "ok")]
-    match gen i.kind i.T i.blocks with
+    match gen i.kind i.T i.scanned with
     | .skipped => both id [("exit", "0"), ("file", "none")] hd (regionBit i)
     | .file cs =>
       -- the copy under observation has the defined table substituted, so it compiles like a plain enum
@@ -323,7 +327,7 @@ def c14rawCase (id : String) (payload : List Sexp) : List String :=
   | none => err id "bad-enum-case"
   | some i =>
     let reg := if !WF i then "Out" else if F_undefined_map true then "F_undefined_map" else "WF"
-    match gen i.kind i.T i.blocks with
+    match gen i.kind i.T i.scanned with
     | .file cs => both id [("compile", if compiles true i.T i.decl cs then "ok" else "error")] [("compile", "ok")] reg
     | _ => both id [] [] "Out"
 
